@@ -33,7 +33,7 @@ ASSUMPTIONS = [
 EXHAUSTIVE = {"quick": False, "thorough": False}
 PLAN = {"quick": dict(unions=2600, inputs=36), "thorough": dict(unions=60000, inputs=70)}
 FLOORS = {"quick": {"unmarshal_compared": 70000, "marshal_compared": 40000, "none_honoured": 2000, "all_reject_valueerror": 8000, "orders": 2000},
-          "thorough": {"unmarshal_compared": 3000000, "marshal_compared": 1500000, "none_honoured": 100000, "all_reject_valueerror": 300000, "orders": 30000}}
+          "thorough": {"unmarshal_compared": 3000000, "marshal_compared": 1500000, "none_honoured": 60000, "all_reject_valueerror": 300000, "orders": 30000}}
 
 MOD = "vunion_pool"
 SRC = """
